@@ -51,8 +51,17 @@ func vNum(s string) *big.Rat {
 // vSumEq: printed total equals the sum of printed parts, exactly in exact mode,
 // within (n+1) half-units of the last printed digit otherwise.
 func vSumEq(total *big.Rat, parts []*big.Rat, exact bool, unit *big.Rat) bool {
+	return vSumEqMag(total, parts, exact, unit, nil)
+}
+
+// vSumEqMag: as vSumEq; behind holds values the compared figures were computed from (a net amount is the difference of a
+// positive and a negative side that may be many orders of magnitude larger than it: their size bounds its float error)
+func vSumEqMag(total *big.Rat, parts []*big.Rat, exact bool, unit *big.Rat, behind []*big.Rat) bool {
 	sum := new(big.Rat)
 	mag := new(big.Rat)
+	for _, b := range behind {
+		mag.Add(mag, vRatAbs(b))
+	}
 	for _, p := range parts {
 		sum.Add(sum, p)
 		mag.Add(mag, vRatAbs(p))
@@ -60,7 +69,7 @@ func vSumEq(total *big.Rat, parts []*big.Rat, exact bool, unit *big.Rat) bool {
 	tol := new(big.Rat)
 	if !exact {
 		tol = vRatMul(big.NewRat(int64(len(parts))+1, 2), unit)
-		tol.Add(tol, vRatMul(vRelSlack, vRatAdd(big.NewRat(1, 1), mag)))
+		tol.Add(tol, vRatMul(vRelSlack(2*len(parts)), vRatAdd(big.NewRat(1, 1), mag)))
 	}
 	return vRatAbs(vRatSub(total, sum)).Cmp(tol) <= 0
 }
@@ -209,7 +218,7 @@ func checkC07(c c07Case, ctx *vCtx) *vFailure {
 			if _, ok := sum[t.Name]; !ok {
 				return vFailf("R1: report totals has element %q that no daily total of reg shows", t.Name)
 			}
-			if !vSumEq(vNum(t.Pos), pos[t.Name], exact, vCent) || !vSumEq(vNum(t.Neg), neg[t.Name], exact, vCent) || !vSumEq(vNum(t.Sum), sum[t.Name], exact, vCent) {
+			if !vSumEq(vNum(t.Pos), pos[t.Name], exact, vCent) || !vSumEq(vNum(t.Neg), neg[t.Name], exact, vCent) || !vSumEqMag(vNum(t.Sum), sum[t.Name], exact, vCent, append(append([]*big.Rat{}, pos[t.Name]...), neg[t.Name]...)) {
 				return vFailf("R1: report totals row %v is not the sum of the register's daily totals for %q (pos %v, neg %v, sum %v)", t, t.Name, pos[t.Name], neg[t.Name], sum[t.Name])
 			}
 		}
@@ -237,7 +246,7 @@ func checkC07(c c07Case, ctx *vCtx) *vFailure {
 			if len(single) == 0 {
 				return vFailf("R2: report totals lists %q but reg -s %q shows no row", X, X)
 			}
-			if !vSumEq(vNum(totX.Pos), ps, exact, vCent) || !vSumEq(vNum(totX.Neg), ns, exact, vCent) || !vSumEq(vNum(totX.Sum), ss, exact, vCent) {
+			if !vSumEq(vNum(totX.Pos), ps, exact, vCent) || !vSumEq(vNum(totX.Neg), ns, exact, vCent) || !vSumEqMag(vNum(totX.Sum), ss, exact, vCent, append(append([]*big.Rat{}, ps...), ns...)) {
 				return vFailf("R2: report totals row %v differs from the sums of the reg -s %q rows %v", *totX, X, single)
 			}
 			ctx.Label("R2")
@@ -249,7 +258,11 @@ func checkC07(c c07Case, ctx *vCtx) *vFailure {
 		if totX != nil {
 			want = vNum(totX.Sum)
 		}
-		if !vSumEq(vNum(balS.Total), []*big.Rat{want}, exact, vCent) {
+		var behind []*big.Rat
+		if totX != nil {
+			behind = []*big.Rat{vNum(totX.Pos), vNum(totX.Neg)}
+		}
+		if !vSumEqMag(vNum(balS.Total), []*big.Rat{want}, exact, vCent, behind) {
 			return vFailf("R3: bal -s %q grand total %s, report totals says %s", X, balS.Total, want.FloatString(2))
 		}
 		if totX != nil {
